@@ -64,7 +64,7 @@ def prun(seed_dir, props=None, tier="quick"):
     import tempfile
     d = os.path.join(VERIF, "seeded", seed_dir)
     meta = json.load(open(os.path.join(d, "meta.json")))
-    props = props or [meta["property"]]
+    props = props or meta.get("run_properties") or [meta["property"]]
     base = tempfile.mkdtemp(prefix="verif-seed-%s-" % seed_dir, dir="/var/tmp")
     res = {}
     try:
